@@ -66,3 +66,44 @@ Theorem C14_realm_marker : forall configured applies failed,
   if negb applies || failed then (match configured with [] => [65; 80; 73] | _ => configured end) else [].
 Proof. exact realm_marker. Qed.
 Print Assumptions C14_realm_marker.
+
+(* ---- the default credential against every kind of operation writer (writers as data: basic, bearer,
+   API key in header or query, pass-through, composition) ---- *)
+
+(* the modelled wrapper = the property's rule: own credential, and the default only when the operation has no writer
+   and no Authorization header is set *)
+Theorem C14_default_only_when : forall op default q,
+  effective_cred op default q = expected_request op default q.
+Proof. exact effective_cred_expected. Qed.
+Print Assumptions C14_default_only_when.
+
+(* an operation with a writer of its own never gets the default credential, whatever that writer writes *)
+Theorem C14_own_credential_excludes_default : forall w default q,
+  effective_cred (Some w) default q = write_cred w q.
+Proof. exact own_credential_excludes_default. Qed.
+Print Assumptions C14_own_credential_excludes_default.
+
+Theorem C14_preset_authorization_excludes_default : forall default q,
+  raw_header s_authorization q <> [] -> effective_cred None default q = q.
+Proof. exact preset_authorization_excludes_default. Qed.
+Print Assumptions C14_preset_authorization_excludes_default.
+
+(* a writer that is not an Authorization writer leaves the Authorization header alone ... *)
+Theorem C14_non_authorization_writer_frame : forall w q,
+  writes_authorization w = false ->
+  raw_header s_authorization (write_cred w q) = raw_header s_authorization q.
+Proof. exact non_authorization_writer_frame. Qed.
+Print Assumptions C14_non_authorization_writer_frame.
+
+(* ... hence the default credential is not a fallback for such an operation: no Authorization header appears *)
+Theorem C14_default_not_a_fallback : forall w d q,
+  writes_authorization w = false -> raw_header s_authorization q = [] ->
+  raw_header s_authorization (effective_cred (Some w) (Some d) q) = [].
+Proof. exact default_not_a_fallback. Qed.
+Print Assumptions C14_default_not_a_fallback.
+
+(* a composition writes its members in order on the same request *)
+Theorem C14_compose_sequence : forall a r q,
+  write_cred (WCompose (a :: r)) q = write_cred (WCompose r) (write_cred a q).
+Proof. exact compose_sequence. Qed.
+Print Assumptions C14_compose_sequence.
